@@ -39,18 +39,36 @@ def run(ck, progs):
 def c11a(ck, prog):
     R = "C11-a TABLE directives"
     b = prog.method(r"^ohkami::header::setcookie::SetCookieBuilder$", "build")
+    view, writes = builder_writes(prog, b)
+    from .lib import pathsens
+    # literal pieces written one after the other are one literal on the wire (`"; "` + `"Expires"` + `"="`)
+    merged = []       # [text, first call, complete?]
+    for c, lit, desc in writes:
+        if lit is not None and merged and merged[-1][2] is False and view.dominates(merged[-1][1].bb, c.bb):
+            merged[-1][0] += lit
+        elif lit is not None:
+            merged.append([lit, c, False])
+        elif merged:
+            merged[-1][2] = True
     emitted = []
-    for c in b.calls_to(r"Vec::<T, A>::extend_from_slice$"):
-        a = b.const_args(c)[1]
-        if a and "s" in a and a["s"].startswith("; "):
-            conds = [fa for fa in guards.facts_at(b, prog, c.bb) if fa.kind == "variant" and fa.allowed == {"Some"}]
-            guard_fields = set()
-            for fa in conds:
-                d = decision.describe_deep(b, fa.place, 4) if fa.place else guards.describe_origin(b, fa.steps)
-                m = re.search(r"\.(\w+)$", d.split("@")[0])
-                if m:
-                    guard_fields.add(m.group(1))
-            emitted.append((a["s"], guard_fields))
+    for text, c, _ in merged:
+        if not text.startswith("; "):
+            continue
+        nm_ = text[2:].rstrip("=")
+        fld_ = nm_.replace("-", "")
+        # the field(s) whose `Some` edge every path to this emission takes (flags set by `matches!` followed through)
+        guard_fields = set()
+        for cand in ("Expires", "MaxAge", "Domain", "Path", "Secure", "HttpOnly", "SameSite"):
+            def some_of(facts, cand=cand):
+                for fa in facts:
+                    if fa.kind == "variant" and fa.allowed == {"Some"}:
+                        d = decision.describe_deep(view, fa.place, 5) if getattr(fa, "place", None) else guards.describe_origin(view, fa.steps)
+                        if re.search(r"\.%s$" % cand, d.split("@")[0]):
+                            return True
+                return False
+            if pathsens.path_avoiding_edges(view, prog, 0, c.bb, some_of, constprop=True) is None:
+                guard_fields.add(cand)
+        emitted.append((text, guard_fields))
     names = [e[0][2:].rstrip("=") for e in emitted]
     ok = sorted(names) == sorted(DIRECTIVES) and set(names) <= RFC6265_AV
     ck.ob(R, "builder:vocabulary", ok, b.loc(None), "" if ok else "SetCookieBuilder::build emits directives %r" % names, how=str(names))
@@ -96,13 +114,37 @@ def c11a(ck, prog):
     ck.ob(R, "SameSite:tables-inverse", ok, fb.loc(None), "" if ok else "SameSitePolicy::as_str is %r; from_bytes recognises %r" % (a, back), how="Strict/Lax/None <-> same literals")
 
 
+def builder_writes(prog, b):
+    """(view, [(call, literal text or None, description of the written operand)]) for SetCookieBuilder::build with the
+    builder's own helper functions spliced in: every append to the line being built, in program order"""
+    helper = lambda caller, callee: callee.crate == caller.crate and (callee.self_ty or "").endswith("setcookie::SetCookieBuilder") and not callee.trait
+    view = prog.inlined(b, 2, helper)
+    rpo = view.rpo()
+    out = []
+    for c in sorted(view.calls(), key=lambda c: rpo.get(c.bb, 10 ** 6)):
+        if not re.search(r"^alloc::vec::Vec::<T, A>::(extend_from_slice|push)$|^alloc::string::String::(push_str|push)$", c.callee or "") or len(c.args) < 2:
+            continue
+        ca = view.const_args(c)[1]
+        lit = None
+        if ca is not None:
+            if "s" in ca:
+                lit = ca["s"]
+            elif "ch" in ca:
+                lit = ca["ch"]
+            elif ca.get("ty") == "u8" and "v" in ca:
+                lit = chr(int(ca["v"]))
+        out.append((c, lit, decision.describe_deep(view, c.args[1], 6)))
+    return view, out
+
+
 def c11b(ck, prog):
     R = "C11-b TAINT value"
     b = prog.method(r"^ohkami::header::setcookie::SetCookieBuilder$", "build")
+    view, writes = builder_writes(prog, b)
     ext = b.calls_to(r"Vec::<T, A>::extend_from_slice$")
     vals = []
-    for c in ext:
-        d = decision.describe_deep(b, c.args[1], 5)
+    for c, lit, d in writes:
+        d = decision.describe_deep(view, c.args[1], 8)
         if "Cookie.1" in d or "Cookie" in d and ".1" in d:
             vals.append((c, d))
     ok = len(vals) == 1 and "percent_encode(" in vals[0][1]
@@ -120,6 +162,9 @@ def c11b(ck, prog):
     pushes = [b.const_args(c)[1] for c in b.calls_to(r"Vec::<T, A>::push$")]
     okp = all(p is not None and int(p.get("v", 999)) < 128 for p in pushes)
     ok = not bad and okp
+    if not b.calls_to(r"from_utf8_unchecked$") and not view.calls_to(r"from_utf8_unchecked$"):
+        # the line is assembled in a String (checked by construction): nothing unchecked to justify
+        ok, bad = True, []
     ck.ob(R, "builder:utf8-by-construction", ok, b.loc(None), "" if ok else "build() feeds from_utf8_unchecked with bytes that are not provably UTF-8: %r" % bad, how="%d writes: str.as_bytes() or ASCII literals" % (len(ext) + len(pushes)))
     # parser: value through percent_decode_utf8 (checked)
     p = prog.method(r"^ohkami::header::setcookie::SetCookie<'c>$", "from_raw")
